@@ -9,11 +9,20 @@
 //!   validation after every single alteration.
 //! * `keytag-ds`: generated DNSKEY RDATA → `Dnskey::key_tag`,
 //!   `DnskeyExt::digest` against the reference computations.
+//! * `zone-history`: a generated zone is put into one `SortedRecords` by a
+//!   generated history of operations (batches split anywhere), the container
+//!   is compared with the RFC 4034 §6 order after every step and the zone is
+//!   signed with `sign_sorted_zone_records`; every RRSIG must verify (see
+//!   `zone.rs`).
+//! * `rsa-key-field`: generated RFC 3110 public key fields →
+//!   `rsa_exponent_modulus` / `rsa_encode` / `PublicKey::from_dnskey` against
+//!   the reference split, at the length limits.
 //! * `fixtures`: sweep over the fixture key files (key tags vs file names,
 //!   DS digests vs the `.ds` files written by the key tool, loadability,
 //!   reference self-test against RFC vectors).
 mod keys;
 mod reference;
+mod zone;
 
 use crate::engine::*;
 use crate::gen::message as gm;
@@ -361,7 +370,12 @@ fn decode_case(u: &mut Unstructured, thorough: bool) -> Case {
         38..=62 => 1,
         63..=77 => 2,
         78..=88 => 3,
-        _ => 4,
+        89..=96 => 4,
+        // the larger RSA keys (4096 bit = the RFC 3110 limit; 3072 bit with a
+        // 5-octet exponent; RSASHA512 with 4096 bit): 1 % each, they are slow
+        97 => keys::BIG_RSA[0],
+        98 => keys::BIG_RSA[1],
+        _ => keys::BIG_RSA[2],
     };
     let route = match pick(u, 10) {
         0..=3 => Route::SignRrset,
@@ -618,6 +632,9 @@ fn run_sign(data: &[u8], ctx: &mut Ctx) -> CaseResult {
     };
     let ck = CaseKey { idx: c.key_idx, alg: lk.kf.alg, flags, pubkey: lk.kf.key.clone(), own };
     ctx.class(format!("alg:{}", ck.alg));
+    if ck.alg == 8 || ck.alg == 10 {
+        ctx.class(format!("rsa-modulus-octets:{}", rf::sig_len(ck.alg, &ck.pubkey).unwrap_or(0)));
+    }
     let dnskey = ck.pair().dnskey();
     let want_tag = rf::key_tag(&ck.rdata()).expect("not algorithm 1");
     vensure!(dnskey.flags() == flags && dnskey.protocol() == 3 && dnskey.algorithm().to_int() == ck.alg && dnskey.public_key().as_slice() == &ck.pubkey[..], "keys:dnskey-of-keypair-differs-from-key-file", "{}: KeyPair::dnskey() = {dnskey:?}", lk.fx.name);
@@ -1305,6 +1322,65 @@ fn run_keytag(data: &[u8], ctx: &mut Ctx) -> CaseResult {
             Err(e) => vfail!("ds-digest:supported-type-refused", "digest type {dt}: {e}"),
         }
     }
+    // ... whatever type the owner name has: flat names over other octets
+    // types, a name parsed from a message (uncompressed and compressed, i.e.
+    // not available as one slice), a chain of a relative name and a suffix
+    {
+        let wire = gn::to_wire(&owner);
+        let want = rf::ds_digest(&owner, &rd, 2).unwrap();
+        let chk = |got: Result<domain::crypto::common::Digest, AlgorithmError>, repr: &str| -> CaseResult {
+            match got {
+                Ok(d) => {
+                    vensure!(d.as_ref() == &want[..], format!("ds-digest:differs-from-rfc4034-5.1.4:{repr}"), "owner {} given as {repr}", gn::show(&owner));
+                    Ok(())
+                }
+                Err(e) => vfail!("ds-digest:supported-type-refused", "owner as {repr}: {e}"),
+            }
+        };
+        chk(dk.digest(&gn::to_name_bytes(&owner), DigestAlgorithm::SHA256), "Name<Bytes>")?;
+        let ns: Name<&[u8]> = Name::from_octets(&wire[..]).expect("valid name");
+        chk(dk.digest(&ns, DigestAlgorithm::SHA256), "Name<&[u8]>")?;
+        if !owner.is_empty() {
+            use domain::base::name::RelativeName;
+            let k = 1 + pick(u, owner.len());
+            let rel: RelativeName<Vec<u8>> = RelativeName::from_octets(gn::to_wire_rel(&owner[..k].to_vec())).expect("valid relative name");
+            let chain = rel.chain(gn::to_name(&owner[k..].to_vec())).expect("fits");
+            chk(dk.digest(&chain, DigestAlgorithm::SHA256), "Chain<RelativeName,Name>")?;
+            ctx.class("ds-owner:chain");
+        }
+        // question = a suffix of the owner, answer owner = the labels before
+        // it + a pointer to the question name (or the whole name again)
+        let k = pick(u, owner.len() + 1);
+        let compressed = flag(u);
+        let mut m = vec![0u8; 12];
+        m[2] = 0x84;
+        m[5] = 1;
+        m[7] = 1;
+        m.extend_from_slice(&gn::to_wire(&owner[k..].to_vec()));
+        m.extend_from_slice(&[0, 48, 0, 1]);
+        if compressed {
+            m.extend_from_slice(&gn::to_wire_rel(&owner[..k].to_vec()));
+            m.extend_from_slice(&[0xC0, 12]);
+        } else {
+            m.extend_from_slice(&wire);
+        }
+        m.extend_from_slice(&[0, 1, 0, 1, 0, 0, 0, 0, 0, 4, 192, 0, 2, 1]);
+        let msg = match Message::from_octets(Bytes::from(m)) {
+            Ok(x) => x,
+            Err(e) => vfail!("selfcheck:ds-owner-message", "{e}"),
+        };
+        let rec = match msg.answer().ok().and_then(|mut a| a.next()).and_then(|r| r.ok()) {
+            Some(r) => r,
+            None => vfail!("selfcheck:ds-owner-message", "no answer record"),
+        };
+        let pn = rec.owner().clone();
+        vensure!(gn::from_name(&pn) == owner, "selfcheck:ds-owner-message", "owner parsed as {}", gn::show(&gn::from_name(&pn)));
+        chk(dk.digest(&pn, DigestAlgorithm::SHA256), if compressed { "ParsedName-compressed" } else { "ParsedName-uncompressed" })?;
+        ctx.class(if compressed { "ds-owner:ParsedName-compressed" } else { "ds-owner:ParsedName-uncompressed" });
+        if owner.iter().any(|l| l.iter().any(|b| b.is_ascii_uppercase())) {
+            ctx.class("ds-owner:has-upper-case");
+        }
+    }
     // the digest does not depend on the case of the owner
     let name2 = gn::to_name(&gn::swap_case(&owner, u));
     let a = dk.digest(&name, DigestAlgorithm::SHA256).map(|d| d.as_ref().to_vec());
@@ -1313,6 +1389,113 @@ fn run_keytag(data: &[u8], ctx: &mut Ctx) -> CaseResult {
     // digest types without an implementation are refused, not mis-computed
     let other = [3u8, 0, 5, 6, 255][pick(u, 5)];
     vensure!(dk.digest(&name, DigestAlgorithm::from_int(other)).is_err(), "ds-digest:unknown-type-accepted", "digest type {other}");
+    Ok(())
+}
+
+//------------ RSA public key fields (RFC 3110) -----------------------------------------------------------
+
+/// Generated RFC 3110 public key fields: `rsa_exponent_modulus` must split
+/// every field whose exponent and modulus are 1..=512 octets (the RFC's
+/// 4096-bit limit, which the function's own comment quotes) without leading
+/// zero octets exactly as the reference does, `rsa_encode` must give the
+/// field back, and the ring backend must accept such a key for
+/// verification when ring itself does. What the library does with fields
+/// outside the RFC's limits is not judged (only: no panic, and whatever is
+/// returned is the reference split).
+fn run_rsa_field(data: &[u8], ctx: &mut Ctx) -> CaseResult {
+    use domain::crypto::common::{rsa_encode, rsa_exponent_modulus, PublicKey};
+    let mut u = Unstructured::new(data);
+    let u = &mut u;
+    let alg = [8u8, 10, 5, 7][pick(u, 4)];
+    let elen = match pick(u, 8) {
+        0 => 1,
+        1 | 2 => 3,
+        3 => 4 + pick(u, 2),
+        4 => [255usize, 256, 257, 511, 512][pick(u, 5)],
+        5 => 513 + pick(u, 3),
+        6 => 0,
+        _ => 1 + pick(u, 16),
+    };
+    let nlen = match pick(u, 10) {
+        0 => 512,
+        1 => 511,
+        2 => 513 + pick(u, 3),
+        3 => 256,
+        4 => 384,
+        5 => 128,
+        6 => 127,
+        7 => pick(u, 4),
+        _ => 1 + pick(u, 600),
+    };
+    let long_form = elen > 255 || chance(u, 16);
+    let lead_e = chance(u, 16);
+    let lead_n = chance(u, 16);
+    let min_len = [0usize, 128, 256, 512][pick(u, 4)];
+    let seed = u64_(u) | 1;
+    let fill = expand(seed, elen + nlen);
+    let mut e = fill[..elen].to_vec();
+    let mut n = fill[elen..elen + nlen].to_vec();
+    if let Some(b) = e.first_mut() {
+        *b = if lead_e { 0 } else { *b | 1 };
+    }
+    if let Some(b) = n.first_mut() {
+        *b = if lead_n { 0 } else { *b | 0x80 };
+    }
+    if let Some(b) = e.last_mut() {
+        *b |= 1;
+    }
+    if let Some(b) = n.last_mut() {
+        *b |= 1;
+    }
+    let mut field = vec![];
+    if long_form {
+        field.push(0);
+        field.extend_from_slice(&(elen as u16).to_be_bytes());
+    } else {
+        field.push(elen as u8);
+    }
+    field.extend_from_slice(&e);
+    field.extend_from_slice(&n);
+    let dk = match Dnskey::new(256, 3, alg_of(alg), field.clone()) {
+        Ok(d) => d,
+        Err(_) => vfail!("dnskey:new-refuses-rdata-that-fits", "{} octets", field.len()),
+    };
+    ctx.sample(|| format!("alg={alg} elen={elen} nlen={nlen} long_form={long_form} lead_e={lead_e} lead_n={lead_n} min_len={min_len}"));
+    // the 3-octet length form for a short exponent is not what RFC 3110
+    // prescribes ("if it is greater than 255"); not judged
+    let canonical_form = long_form == (elen > 255);
+    let within = (1..=512).contains(&elen) && (1..=512).contains(&nlen) && !lead_e && !lead_n && canonical_form;
+    let got = rsa_exponent_modulus(&dk, min_len);
+    ctx.class(format!("rsa-field:modulus-octets:{}", match nlen { 0 => "0", 1..=127 => "<128", 128..=255 => "<256", 256..=510 => "<511", 511 => "511", 512 => "512", _ => ">512" }));
+    ctx.class(format!("rsa-field:exponent-octets:{}", match elen { 0 => "0", 1..=255 => "<=255", 256..=511 => "<512", 512 => "512", _ => ">512" }));
+    if let Ok((ge, gnn)) = &got {
+        vensure!(*ge == e && *gnn == n, "rsa_exponent_modulus:split-differs-from-rfc3110", "elen={elen} nlen={nlen}: got {} + {} octets", ge.len(), gnn.len());
+    }
+    if within {
+        ctx.nontrivial(&(alg, &field, min_len));
+        if nlen >= min_len {
+            ctx.class("rsa-field:within-rfc3110-limits");
+            vensure!(got.is_ok(), "rsa_exponent_modulus:refuses-key-within-rfc3110-limits", "exponent {elen} octets, modulus {nlen} octets, min_len {min_len}: {:?}", got.as_ref().err());
+            vensure!(rsa_encode(&e, &n) == field, "rsa_encode:differs-from-rfc3110", "exponent {elen} octets, modulus {nlen} octets");
+        } else {
+            ctx.class("rsa-field:shorter-than-callers-minimum");
+            vensure!(got.is_err(), "rsa_exponent_modulus:accepts-modulus-below-minimum", "modulus {nlen} octets, min_len {min_len}");
+        }
+        // the backend's verification key (PublicKey::from_dnskey asks for
+        // at least 1024 bits)
+        if (alg == 8 || alg == 10) && (128..=512).contains(&nlen) {
+            ctx.class("rsa-field:from_dnskey");
+            let pk = PublicKey::from_dnskey(&dk);
+            vensure!(pk.is_ok(), "from_dnskey:refuses-rsa-key-within-rfc3110-limits", "exponent {elen} octets, modulus {nlen} octets: {:?}", pk.as_ref().err());
+            // and gives the same key field back
+            let rpk = domain::crypto::ring::PublicKey::from_dnskey(&dk);
+            vensure!(rpk.is_ok(), "from_dnskey:refuses-rsa-key-within-rfc3110-limits", "ring backend: exponent {elen} octets, modulus {nlen} octets: {:?}", rpk.as_ref().err());
+            let back = rpk.unwrap().dnskey(256);
+            vensure!(back.public_key().as_slice() == &field[..] && back.algorithm().to_int() == alg, "from_dnskey:dnskey-round-trip-differs", "exponent {elen} octets, modulus {nlen} octets");
+        }
+    } else {
+        ctx.class("rsa-field:outside-rfc3110-limits");
+    }
     Ok(())
 }
 
@@ -1391,6 +1574,23 @@ fn health(c: &BTreeMap<String, u64>, thorough: bool) -> Result<(), String> {
     for a in [8, 10, 13, 14, 15] {
         need(&format!("alg:{a}"), 200 * s)?;
     }
+    // RSA key sizes: 2048, 3072 and 4096 bit (the RFC 3110 limit)
+    for k in ["rsa-modulus-octets:256", "rsa-modulus-octets:384", "rsa-modulus-octets:512"] {
+        need(k, 100 * s)?;
+    }
+    for k in ["ds-owner:chain", "ds-owner:ParsedName-compressed", "ds-owner:ParsedName-uncompressed", "ds-owner:has-upper-case"] {
+        need(k, 500 * s)?;
+    }
+    for k in ["rsa-field:modulus-octets:512", "rsa-field:modulus-octets:511", "rsa-field:exponent-octets:512", "rsa-field:within-rfc3110-limits", "rsa-field:from_dnskey", "rsa-field:shorter-than-callers-minimum", "rsa-field:outside-rfc3110-limits"] {
+        need(k, 50 * s)?;
+    }
+    for k in [
+        "hist:from-vec", "hist:from_iter", "hist:new", "hist:extend", "hist:sorted_extend", "hist:insert", "hist:remove_all", "hist:remove_first",
+        "hist:batch-brings-record-sorting-before-stored-one-of-same-rrset", "hist:batch-brings-record-already-stored", "hist:adding-steps-on-non-empty:2", "hist:adding-steps-on-non-empty:3",
+        "zone:rrsig-verified", "zone:rrsig-verified-over-several-records", "zone:two-keys", "zone:rrset-at-cut", "zone:rrset-below-cut", "zone:out-of-zone-rrset", "zone:signed-rrsets:4",
+    ] {
+        need(k, 100 * s)?;
+    }
     for t in ["reorder", "owner-case", "embedded-name-case", "ttl-decremented", "ttl-raised", "wildcard-expansion", "name-compression", "signer-name-case"] {
         need(&format!("t:{t}"), 100 * s)?;
     }
@@ -1415,10 +1615,10 @@ fn health(c: &BTreeMap<String, u64>, thorough: bool) -> Result<(), String> {
 pub fn prop() -> Option<Prop> {
     Some(Prop {
         id: "C12",
-        rule: "sign-verify: a generated RRset (owner shape, type over all zone types + unknown codes, class, TTL, 1..8 records pairwise different as DNS data, validity period, key/algorithm, signer route) is non-trivial iff it has >= 2 records or a wildcard owner or an upper-case letter in an embedded name that RFC 6840 5.1 lists, AND at least one resolver-side transformation was really applied (the received RRset differs from the signed one); distinct by (decoded case, transformation mask). keytag-ds cases are distinct by (flags, protocol, algorithm, key, owner).",
+        rule: "sign-verify: a generated RRset (owner shape, type over all zone types + unknown codes, class, TTL, 1..8 records pairwise different as DNS data, validity period, key/algorithm, signer route) is non-trivial iff it has >= 2 records or a wildcard owner or an upper-case letter in an embedded name that RFC 6840 5.1 lists, AND at least one resolver-side transformation was really applied (the received RRset differs from the signed one); distinct by (decoded case, transformation mask). keytag-ds cases are distinct by (flags, protocol, algorithm, key, owner). zone-history: a generated zone (1..4 owners incl. wildcard, delegation, glue and out-of-zone names; 1..3 types each; 1..4 records each plus case variants) put into one SortedRecords by a history of 1..4 batches (From<Vec>/from_iter/new, extend, sorted_extend, insert, remove_all/first) is non-trivial iff at least one adding step met a non-empty container and at least 2 records remain. rsa-key-field: non-trivial iff exponent and modulus are within the RFC 3110 limits (1..=512 octets, no leading zero).",
         assumptions: &[
             "trusted: ring::digest and ring::signature primitives (shared with the library's ring backend); the reference builds the signed octets, parses the public key field and calls ring itself",
-            "fixture keys from /repo/test-data/dnssec-keys (one key per algorithm; ECDSA signatures use ring's SystemRandom, the verdicts do not depend on the random nonce)",
+            "fixture keys from /repo/test-data/dnssec-keys (one key per algorithm) plus three RSA keys made with openssl for the other sizes ring signs with (3072 bit with a 33-bit exponent, 4096 bit for RSASHA256 and for RSASHA512); ECDSA signatures use ring's SystemRandom, the verdicts do not depend on the random nonce",
             "an RRset handed to the signer has no two records that are equal as DNS data (RFC 2181 5: that is not an RRset; names compared case-insensitively, also where the DNSSEC canonical form keeps the case); duplicates (exact, or differing in the case of owner / RFC 6840 5.1 names) are only given to SortedRecords, which removes them",
             "sign_sorted_rrset_in gets its records in RFC 4034 6.3 order (documented precondition), one TTL per RRset (Rrset::new panics otherwise, documented)",
             "records are built by the library's message parser from generated wire data; RDATA the parser refuses is out of scope here (C05)",
@@ -1426,6 +1626,8 @@ pub fn prop() -> Option<Prop> {
         subchecks: vec![
             SubCheck::new("sign-verify", run_sign, 100_000, 400_000, 1200),
             SubCheck::new("keytag-ds", run_keytag, 30_000, 300_000, 400),
+            SubCheck::new("zone-history", zone::run_zone, 15_000, 150_000, 600),
+            SubCheck::new("rsa-key-field", run_rsa_field, 10_000, 100_000, 64),
             SubCheck::sweep("fixtures", run_fixture, n_fixtures),
         ],
         health: Some(health),
